@@ -57,7 +57,8 @@ spec fn bit8(x: u8, c: int) -> bool { (x >> (c as u8)) & 1 == 1 }
 
 impl CpcSketch {
     spec fn k(&self) -> int { pow2(self.lg_k as nat) as int }
-    spec fn tbl(&self) -> ISet<u32> { self.surprising_value_table->0.items() }
+    // total (an EMPTY sketch has no table yet: its matrix is all zero); same text as in contracts/cpc_update.rs / cpc_codec.rs
+    spec fn tbl(&self) -> ISet<u32> { if self.surprising_value_table is Some { self.surprising_value_table->0.items() } else { ISet::empty() } }
     // the abstract bit matrix, as the paper defines it
     spec fn mbit(&self, row: int, col: int) -> bool {
         let off = self.window_offset as int;
@@ -411,7 +412,7 @@ lemma_window_bit ( default_row , sw [ r ] , offset , c ) ;
 let vx_s2 = self . surprising_value_table ( ) . slots ( ) ;
 let ghost sv = vx_s2 @ ;
 let mut vx_i2 = 0 ;
-while vx_i2 < vx_s2 . len ( ) invariant matrix @ . len ( ) == k , k == self . k ( ) , vx_s2 @ == sv , sv == self . surprising_value_table -> 0 . slots @ , pdistinct ( sv ) , 0 <= vx_i2 <= sv . len ( ) , forall | x : u32 | # [ trigger ] self . tbl ( ) . contains ( x ) ==> ( x >> 6 ) < self . k ( ) , 4 <= self . lg_k <= 26 , forall | r : int , c : int | 0 <= r < k && 0 <= c < 64 ==> bit ( matrix @ [ r ] , c ) == ( bit ( m0 [ r ] , c ) != ( rc ( r , c ) != EMPTY && pholds ( sv . take ( vx_i2 as int ) , rc ( r , c ) ) ) ) , decreases sv . len ( ) - vx_i2 {
+while vx_i2 < vx_s2 . len ( ) invariant self . surprising_value_table is Some , matrix @ . len ( ) == k , k == self . k ( ) , vx_s2 @ == sv , sv == self . surprising_value_table -> 0 . slots @ , pdistinct ( sv ) , 0 <= vx_i2 <= sv . len ( ) , forall | x : u32 | # [ trigger ] self . tbl ( ) . contains ( x ) ==> ( x >> 6 ) < self . k ( ) , 4 <= self . lg_k <= 26 , forall | r : int , c : int | 0 <= r < k && 0 <= c < 64 ==> bit ( matrix @ [ r ] , c ) == ( bit ( m0 [ r ] , c ) != ( rc ( r , c ) != EMPTY && pholds ( sv . take ( vx_i2 as int ) , rc ( r , c ) ) ) ) , decreases sv . len ( ) - vx_i2 {
 let row_col = vx_s2 [ vx_i2 ] ;
 if row_col != u32 :: MAX {
 let col = ( row_col & 63 ) as u8 ;
